@@ -21,19 +21,23 @@ CLAIMS = {
     "C15": {
         "text": "Kernel-checked theorems over ALL call sequences: a recorded defect is final (c15_sticky, c15_bad_names_final), a defect inside a pending function "
                 "can only end in Err (c15_pending_defect_final), stray derivatives and wrong-length initial guesses are final defects with the documented payload. "
-                "The full acceptance language is specified independently (Core/ModelSpec.lean: grouping into items + first-order validity) and evaluated as a monitor on every case; "
+                "LANGUAGE EQUALITY for all finite call sequences: build() returns a model iff the session is Valid (c15_accepts_iff), where Valid is a first-order specification on the grouped calls "
+                "(Core/ModelSpec.lean) independent of the state machine; the Boolean the driver evaluates on every explored session is proved to be that specification (c15_validB_iff, c15_accepts_iff_validB); "
+                "the panic!(\"Logic error\") of check_completion is unreachable (c15_no_panic). "
                 "the transcription of the builder state machine is tied to the code by exhaustive enumeration of short call sequences and random long ones with exact comparison of Ok/variant/payload.",
         "note": "Trusted: Lean kernel; transcription of src/model/builder/*.rs and detail.rs (Core/ModelBuilder.lean) as validated by the enumeration; harness + driver. "
-                "The theorem `accepts iff Valid` (language equality with the independent specification) is work in progress; until it is proved that equality is checked by the monitor on every explored session, not by the kernel.",
+                "The theorems are about the transcription; the monitor (validB evaluated on the implementation's Ok/Err) ties the same specification to the real builder on every explored session.",
     },
     "C16": {
         "text": "Kernel-checked: the stored closure calls the user function with the parameters looked up BY NAME in the function's own order and cannot panic (c16_args_by_name), "
                 "the value of a named parameter and hence every column is invariant under a simultaneous permutation of the model's parameter list and the parameter vector (c16_perm_param, c16_perm_invariant), "
-                "parameters are returned unchanged (c16_params), functions without a derivative for index k contribute the zero column (c16_zero_column); "
+                "parameters are returned unchanged (c16_params), functions without a derivative for index k contribute the zero column (c16_zero_column); every builder-made model equals its by-name specification (c16_refines_spec); "
                 "source-derived obligation re-checked on every run: the arity dispatch table extracted from src/basis_function/detail.rs passes params[t] to argument t for arities exactly 1..10 (c16_dispatch). "
                 "Tie: exact comparison of every entry of eval / eval_partial_deriv on position-sensitive integer probes, all arities 1..10, every ordered subset for small models, against the model AND against the by-name specification.",
         "note": "Trusted: Lean kernel; Core/SepModel.lean + Core/ModelBuilder.lean transcriptions as validated by the exact probe stream; tools/extract_dispatch.py (regex extraction; if the source cannot be parsed the obligation is reported as skipped). "
-                "The end-to-end refinement theorem builder-output = by-name specification is work in progress; it is checked per case by the monitor.",
+                "End-to-end refinement (c16_refines_spec): for every accepted call sequence and every parameter vector of the model's length, eval = specEval and eval_partial_deriv(k) = specDeriv k "
+                "(the by-name specification, including error outcomes), the model holds the last x / initial parameters given; the wrapper closure's two panic sites are unreachable (c16_no_wrapper_panic). "
+                "Assumption stated in the theorem: the zero column has the requested length (DVector::zeros).",
     },
     "C17": {
         "text": "Kernel-checked for EVERY model value, user-function semantics and argument: wrong parameter count is rejected with both lengths and leaves the model unchanged (c17_count, c17_rejected_state), "
